@@ -46,6 +46,9 @@ type Result struct {
 	SiteSet  []string       `json:"site_set,omitempty"`
 	Transcript string       `json:"transcript,omitempty"`
 	HangInfo   string       `json:"hang_info,omitempty"`
+	// frozen is set before end-of-run cleanup: what the workload observes while
+	// the simulator tears connections down is not a finding.
+	frozen bool
 }
 
 func (r *Result) Fire(k string) {
@@ -64,7 +67,7 @@ func (r *Result) Probe(k string) {
 
 // Violate records the first violation of the run.
 func (r *Result) Violate(clause, key, format string, a ...any) {
-	if r.Outcome == "violation" {
+	if r.frozen || r.Outcome == "violation" {
 		return
 	}
 	r.Outcome = "violation"
@@ -75,7 +78,7 @@ func (r *Result) Violate(clause, key, format string, a ...any) {
 
 // Harness records a problem of the machinery itself (never a violation).
 func (r *Result) Harness(format string, a ...any) {
-	if r.Outcome == "violation" || r.Outcome == "harness" {
+	if r.frozen || r.Outcome == "violation" || r.Outcome == "harness" {
 		return
 	}
 	r.Outcome = "harness"
@@ -118,6 +121,10 @@ type Env struct {
 	// After runs on the root goroutine when the schedule loop ended, before
 	// cleanup; everything else is blocked.
 	After func(out sched.Outcome)
+	// OnHang is called when nothing could move for the whole horizon; the
+	// default reports machinery trouble, properties that promise a return
+	// turn it into a violation.
+	OnHang func(info string)
 }
 
 type seededReader struct{ s uint64 }
@@ -227,6 +234,14 @@ func Bubble(t *testing.T, c *choice.Stream, r *Result, opt RunOpt, setup func(e 
 			if e.After != nil {
 				e.After(out)
 			}
+			if out == sched.Hang {
+				if e.OnHang != nil {
+					e.OnHang(r.HangInfo)
+				} else {
+					r.Harness("simulated system made no progress for %v of simulated time: %s", sim.Horizon, r.HangInfo)
+				}
+			}
+			r.frozen = true
 			curSim = nil
 			// cleanup: let everything finish
 			e.W.Cleanup()
